@@ -56,7 +56,8 @@ Record arec := { ar_victim : nat; ar_vref : ref; ar_strategy : option directive 
 
 Inductive smsg :=
 | SLaunch | SRestarted | STerminate (g : bool) | STerminatedOf (who : ref) | SRestart
-| SAccident (r : arec) | SWatch | SUnwatch | SSuspend | SResume.
+| SAccident (r : arec) | SWatch | SUnwatch | SSuspend | SResume
+| SResumeReq.          (* a supervisor's Resume decision: queued, applied by the actor itself (onResume) *)
 Inductive umsg := UProbe (n : Z) (serial : nat) | UTermG | UPub.
 
 Record env (A : Type) := { e_snd : ref; e_rcv : ref; e_msg : A }.
@@ -437,7 +438,7 @@ Definition apply_directive (s : kstate) (u : nat) (r : arec) (d : directive) (cu
       | DStop =>
           let '(s1, o1) := terminate s self (ar_vref r) false in
           let '(s2, o2, p) := try_terminated s1 u cur_snd in (s2, o ++ o1 ++ o2, p)
-      | DResume => ok (deliver_sys s (ar_vref r) self SResume) o
+      | DResume => ok (deliver_sys s (ar_vref r) self SResumeReq) o
       | DEscalate => let '(s1, o1, p) := escalate s u r in (s1, o ++ o1, p)
       | DRestartAll => ok (restart_all s self (a_children a)) o
       end
@@ -528,6 +529,11 @@ Definition process_sys (s : kstate) (u : nat) (e : env smsg) : R :=
           else ok (upd_actor s u (fun b => w_watchers (insert_sorted snd (a_watchers b)) b)) []
       | SUnwatch => ok (upd_actor s u (fun b => w_watchers (remove_ref snd (a_watchers b)) b)) []
       | SSuspend | SResume => ok s []
+      | SResumeReq =>      (* onResume: only a living actor resumes; a restart or termination under way resumes the mailbox itself *)
+          match a_st a with
+          | Alive => ok (deliver_sys s (a_tok a) (a_tok a) SResume) []
+          | _ => ok s []
+          end
       end
   end.
 
